@@ -383,7 +383,7 @@ def random_source_layout(rng, fmt, t, nc, style):
         lay = {"strict": strict, "page": rng.choice([0, 0, 1 if nc <= 40 else 9, 7, 10, max(1, nc // 2), nc, nc + 3]),
                "multispace": (not strict) and (style == "space" or rng.random() < 0.3)}
     elif fmt == "fasta":
-        lay = {"wrap": rng.choice([0, 1 if nc <= 40 else 9, 7, 60, 70, nc]), "spaces": rng.choice([0, 0, 3, 10]), "lower": rng.random() < 0.3}
+        lay = {"wrap": rng.choice([0, 1 if nc <= 40 else 9, 7, 60, 70, nc]), "spaces": rng.choice([0, 3, 3, 10]), "lower": rng.random() < 0.3}
     elif fmt == "nexus":
         lay = {"page": rng.choice([0, 0, 1 if nc <= 40 else 9, 7, max(1, nc // 2), nc, nc + 3]), "match": rng.random() < 0.4, "lower": rng.random() < 0.3}
     else:
